@@ -215,7 +215,7 @@ static void history(uint64_t c, const char *fam) {
         return true;
     };
     for (unsigned step = 0; step < steps; ++step) {
-        unsigned    op = r.below(26);
+        unsigned    op = r.below(28);
         const char *name = "";
         char        arg[96];
         arg[0] = 0;
@@ -419,6 +419,35 @@ static void history(uint64_t c, const char *fam) {
                 if (!t.IsZero()) vf::fail((std::string("c19:") + fam + ":moved-from-not-zero").c_str(), "step=%u", step);
                 b = static_cast<B &&>(v2);
                 if (read_big(u).w != m.w) vf::fail((std::string("c19:") + fam + ":copy").c_str(), "step=%u", step);
+                break;
+            }
+            case 26:
+            case 27: {
+                // another object holding an unrelated value (usually shorter or longer than the current one) is copy- or
+                // move-assigned over this one; later growth (carries, shifts, or) shows any word left behind
+                name       = "assign-other";
+                uint64_t x = biased(r, cap < 64 ? cap : 64);
+                unsigned n = r.chance(1, 2) ? 0 : r.below(cap);
+                Ref      t = Ref::from_u64(x);
+                t.shl(n);
+                if (t.bits() > cap) continue;
+                B o;
+                if (cap >= 64) o = x;
+                else o = N(x);
+                o <<= SizeT32(n);
+                if (read_big(o).w != t.w) {
+                    vf::fail((std::string("c19:") + fam + ":assign-other:source").c_str(), "step=%u x=%" PRIu64 " n=%u", step, x, n);
+                    return;
+                }
+                if (op == 26) {
+                    b = o;
+                    if (read_big(o).w != t.w) vf::fail((std::string("c19:") + fam + ":assign-other:source-changed").c_str(), "step=%u", step);
+                } else {
+                    b = static_cast<B &&>(o);
+                    if (!o.IsZero() || o.Index() != 0) vf::fail((std::string("c19:") + fam + ":moved-from-not-zero").c_str(), "step=%u", step);
+                }
+                m = t;
+                snprintf(arg, sizeof(arg), "%" PRIu64 " %u", x, n);
                 break;
             }
             case 24: {
